@@ -50,7 +50,7 @@ BOUNDS = (
     "4 socket dispatch sites; every http.HTTPStatus member."
 ) % pick(3, 4)
 OUTSIDE = (
-    "arbitrary code points in the message (f'{exc}' in from_exception realises a symbolic message under CrossHair, so the text is drawn from an alphabet); "
+    "arbitrary code points in the message (f'{exc}' in from_exception realises a symbolic message under CrossHair, so the text is drawn from an alphabet; lone surrogates are in the alphabet of the un-stubbed item error_text_without_utf8_encoding_still_arrives); "
     "symbolic class names (a class cannot be given a symbolic __name__); chained exceptions (__cause__/__context__); the content of remote_traceback; "
     "HTTP dispatch sites under symbolic message text (they run with one concrete message per class through the real WSGI stack); traceback truncation boundary; "
     "not C07 and therefore not judged: the error kind of user classes that declare an error_kind attribute of their own (emitting it is optional per WIRE_PROTOCOL), "
@@ -379,6 +379,63 @@ def _real_error_roundtrip(exc: BaseException, server_id="srv"):  # type: ignore[
     except RpcError as e:
         return e, on_wire
     return None, on_wire
+
+
+# --- text that has no UTF-8 encoding (lone surrogates, e.g. a surrogate-escaped file name) -------------------
+# Un-stubbed on purpose: the stage that broke (metadata encoding) is exactly what the transparent
+# carriers of the kernel items leave out.  The schedule of atoms is symbolic; each path runs the
+# real writer and the real reader on real Arrow bytes.
+
+_RAW_ATOMS = ("a", "\udce9", "\ud800", "\U0001f600", "\n", "\udfff")
+_NRAW = pick(3, 4)
+
+
+def _carried(text: str, message: str) -> bool:
+    """The message carries the text: verbatim, or with each unencodable character replaced by one of
+    Python's standard substitutes (the property cannot ask for bytes UTF-8 does not have)."""
+    if text in message:
+        return True
+    for handler in ("backslashreplace", "replace", "ignore", "xmlcharrefreplace", "namereplace"):
+        if text.encode("utf-8", handler).decode("utf-8") in message:
+            return True
+    return False
+
+
+def _unencodable_problem(ci: int, msg: str) -> str | None:
+    exc = _CLASSES[ci](msg)
+    try:
+        err, _ = _real_error_roundtrip(exc, "srv")
+    except Exception as e:  # noqa: BLE001
+        return "writing/reading the error stream for %s(%a) raised %s: the peer never sees the error" % (_NAMES[ci], msg, type(e).__name__)
+    if err is None:
+        return "no RpcError reached the client for %s(%a)" % (_NAMES[ci], msg)
+    if err.error_type != _NAMES[ci]:
+        return "%s(%a) reached the client with error_type %r" % (_NAMES[ci], msg, err.error_type)
+    if not _carried(str(exc), err.error_message):
+        return "%s(%a) reached the client with a message that does not carry the text: %a" % (_NAMES[ci], msg, err.error_message[:120])
+    return None
+
+
+def _raw_msg(args: dict) -> str:
+    idx = (args["a0"], args["a1"], args["a2"], args["a3"])
+    return "".join(_RAW_ATOMS[idx[i]] for i in range(args["n"]))
+
+
+@cond(q=120, t=400, encoded=[wire._write_error_stream, wire._write_error_batch, Message.add_to_metadata, md.encode_metadata, wire._read_batch_with_log_check],
+      replay=lambda a: _unencodable_problem(_TEXT_CLASSES[a["c3"]], _raw_msg(a)), signature=lambda a, c: "C07:real-stream:unencodable-text-loses-the-error",
+      bound="message = concatenation of <= %d atoms chosen by symbolic indices from %a (lone low/high surrogates included); nothing stubbed" % (_NRAW, _RAW_ATOMS))
+def error_text_without_utf8_encoding_still_arrives(c3: int, n: int, a0: int, a1: int, a2: int, a3: int) -> bool:
+    """
+    pre: 0 <= c3 <= 2 and 0 <= n <= _NRAW
+    pre: 0 <= a0 <= 5 and 0 <= a1 <= 5 and 0 <= a2 <= 5 and 0 <= a3 <= 5
+    post: _
+    """
+    ci = _TEXT_CLASSES[_concrete(c3, 3)]
+    idx = (a0, a1, a2, a3)
+    msg = ""
+    for i in range(n):
+        msg = msg + _RAW_ATOMS[_concrete(idx[i], 6)]
+    return _unencodable_problem(ci, msg) is None
 
 
 def _replay_kind(args: dict) -> str | None:
